@@ -277,8 +277,13 @@ def gen(rng, tier):
     out = []
     for pi, (kind, s0, ops, nt) in enumerate(plans):
         out.append(Case(hist_line(pk[pi], ops, srcs), kind=kind, decides=True, nontrivial=nt, theorem="C03_history"))
-    out += fidelity(rng, quick, [pk[i] for i in range(min(len(pk), 200))])
-    return out
+    dom = in_domain([c.line for c in out])
+    assert all(dom), "generator produced a deciding case outside the hypotheses of C03_history: " + out[dom.index(False)].line[:300]
+    fid = fidelity(rng, quick, [pk[i] for i in range(min(len(pk), 200))])
+    for c, inside in zip(fid, in_domain([c.line for c in fid])):
+        if inside:   # e.g. an untouched start with in-range arguments: the theorem decides it after all
+            c.kind = "fidelity-inside-domain"; c.decides = True; c.theorem = "C03_history"
+    return out + fid
 
 
 def fidelity(rng, quick, pool):
@@ -431,28 +436,18 @@ def known_match(entry, case, real, model):
     return case.kind == "F13-getter-shape" and entry.get("kind") == "F13-getter-shape"
 
 
-def wf_packet(b):
-    """python mirror of `repr` (only used to classify corpus / replay lines as deciding or fidelity cases)"""
-    if len(b) != 188 or not (b[3] & 0x20) or not (1 <= b[4] <= 183):
-        return False
-    fl = b[5]; off = 6 + 6 * bool(fl & 16) + 6 * bool(fl & 8) + bool(fl & 4)
-    for bit in (2, 1):
-        if fl & bit:
-            if off >= 188: return False
-            off += 1 + b[off]
-    end = 5 + b[4]
-    return off <= end and all(x == 0xFF for x in b[off:end])
+def in_domain(lines):
+    """is the case inside the hypotheses of C03_history ?  decided by the Coq-extracted recogniser (op af.wf:
+    Spec/AFParse.v in_domain, sound by Proofs/AFParseSound.v in_domain_sound), not by python"""
+    reqs = ["af.wf " + l.partition(" ")[2] for l in lines]
+    return [r == "1" for r in vlib.run_model(reqs)]
 
 
 def case_of_line(line, kind):
     if kind == "F13-getter-shape":
         return Case(line, kind=kind, decides=True, theorem="C03_getters_full_refuted")
     try:
-        pkt, ops = split_line(line)
-        ok = wf_packet(pkt)
-        for o in ops:
-            if o[0] in (8, 9) and not (0 <= o[1] < PCRMAX): ok = False
-            if o[0] == 13 and not wf_packet(o[1]): ok = False
+        ok = in_domain([line])[0]
     except Exception:
         ok = False
     return Case(line, kind=kind or "replay", decides=ok and not kind.startswith("fidelity"),
